@@ -127,9 +127,14 @@ def build(rng, name, opts=None):
     if rng.random() < 0.3:
         L.append("import os.path")
         feats.append("import-os.path")
-    if rng.random() < 0.3:
+    if chance(0.3, "existing-type-checking-block") or "type-checking-block-duplicates-runtime-import" in force:
         L += ["from typing import TYPE_CHECKING", "", "if TYPE_CHECKING:", "    from collections import OrderedDict  # noqa: F401"]
         feats.append("existing-type-checking-block")
+        if chance(0.5, "type-checking-block-duplicates-runtime-import"):
+            # the block repeats imports the module also makes at run time (left behind by an earlier `apply --pep_563`, after which the
+            # author started to use the classes at run time)
+            L += ["    from shapes import Circle, Square  # noqa: F401", "    from geo.util import Point  # noqa: F401"]
+            feats.append("type-checking-block-duplicates-runtime-import")
     L += st["lines"]
     if chance(0.2, "type-checking-try") and "existing-type-checking-block" not in feats:
         L += ["try:", "    from typing import TYPE_CHECKING", "except ImportError:  # very old interpreters", "    TYPE_CHECKING = False"]
